@@ -3,15 +3,21 @@
 correspondence: (1) every modelled `while` loop: real function vs S2T.Loops model on the same bytes (result AND
 iteration count, counted with sys.settrace on the loop located by its inventory key); (2) explicit limits at
 -1/0/+1 (forged stat / forged sizes / real sparse files, real 10 MiB members), which members are read / decoded /
-written, ODS sheet shapes.
+written (TAR: the BYTES every extractfile handle delivers, archives with hard-link / symlink / directory / FIFO entries
+pointing at in-limit and oversize members), ODS sheet shapes incl. covered cells, text:s paragraphs, XLSX used-cell sets.
 search: the property statement itself on the real code (boundary lattice; iteration counts, copied bytes, allocated
-cells, decoded / written members on amplifying inputs), independent of the Lean model.
+cells, bytes read per member, decoded / written members on amplifying inputs; repeat independence of empty runs),
+independent of the Lean model.
+
+SAFETY: no input built here may expand — also under a library that lost a cap — beyond ~10^6 cells / 50 MB of text:
+amplification is shown by GROWTH on small inputs (repeat 200 vs 2000, 100^2 / 200^2 / 400^2 cells), never by size.
 """
 from __future__ import annotations
 
 import struct
 
 from run import Broken, Violation
+from builders import c12_amplify as M
 from builders import c12_limits as X
 from builders import c12_loopcheck, c12_loops as L
 from builders.c12_trace import Probe, StepLimit, Tracer
@@ -20,20 +26,28 @@ GEN = ["Loops", "C12Consts"]
 RULE = ("loops: per modelled loop a structured stream (BIFF records, JPEG segments, PPT record trees, BLIP records, DIB headers, "
         "PNG chunk chains, RTF token soup, 7z header properties) + a malformed stream over marker-rich alphabets + fixed "
         "adversarial cases (zero-length records, maximal lengths, markers at the last offsets); limits: sizes limit-1/limit/limit+1 "
-        "for read_file (6 limits), the 7z archive size, ZIP/TAR/7z members (real payloads), ODS sheets with random repeat attributes. "
+        "for read_file (6 limits), the 7z archive size, ZIP/TAR/7z members (real payloads), TAR archives mixing regular members around "
+        "the limit with hard links / symlinks (resolving, dangling, chained, forged header size) / directories / FIFOs, ODS sheets with "
+        "random repeat attributes on empty, non-empty and covered cells, <text:p> with text:s counts, XLSX used-cell sets within 30x30. "
         "distinct = distinct (loop, input) / (limit site, size) pairs; non-trivial = non-empty input")
 ASSUMPTIONS = [
     "CPython semantics of slicing, int.from_bytes, struct.unpack, bytes.find, BytesIO.read/seek (modelled, tied by the correspondence)",
     "str.lower / str.isalpha / str.isdigit are parameters of the RTF models (the correspondence uses ASCII text)",
     "_TableExtractor.is_numeric_token is a parameter of the _extract_row model",
     "lzma / zlib / zipfile / tarfile / defusedxml / olefile / pypdf internals: their own cost on hostile input is not modelled",
+    "tarfile: what extractfile(member).read() delivers is an INPUT of the TAR model (taken from plain tarfile on the same archive); "
+    "the bound assumes only that a regular member's handle delivers at most the size in the member's own header (TarFaithful)",
+    "text:c values are ASCII digit strings in the model (signs, underscores, non-numeric values: not modelled); openpyxl read-only "
+    "iter_rows pads to the declared dimension (modelled as the rectangle A1..(max row, max col) of the used cells, dimension = that corner)",
     "peak RSS and wall time are run-time quantities: no theorem speaks about them; proved cost notions are iteration counts, bytes "
     "copied, list cells allocated, members decoded / written",
     "pdf _TableExtractor._extract main loop and SharePoint pagination loops are not modelled (assumedLoops, reasons in Model/LoopInventory.lean)",
     "self-recursive functions are classified by reading only (recursiveByReading)",
 ]
 TRUSTED = ["sys.settrace line events as iteration counter (harness/builders/c12_trace.py)",
-           "minimal 7z writer harness/builders/c12_sevenzip.py (7zFormat.txt layout)"]
+           "minimal 7z writer harness/builders/c12_sevenzip.py (7zFormat.txt layout)",
+           "CPython tarfile as TAR writer and as the reference for what a link member's handle delivers (harness/builders/c12_limits.py:tar_reference)",
+           "minimal ODF / XLSX writers harness/builders/c12_amplify.py; tools/gen/c12.py:_tar_loop_facts (evaluates the loop's type guards on real TarInfo objects)"]
 
 MB = 1024 * 1024
 LINEAR_C = 2          # oracle: a byte scanner may use at most LINEAR_C * (len + 1) iterations
@@ -104,6 +118,54 @@ def _limits_correspondence(ctx):
             broken.append(Broken("correspondence", "c12.members." + kind, f"impl read={read} model={o}",
                                  case={"kind": kind, "limit": lim, "sizes": sizes}))
 
+    # ---- TAR with link members: the bytes every extractfile handle delivers, against the model fed with what plain
+    #      tarfile says about each member (kind, size field of its own header, bytes its handle delivers)
+    tcfgs = []
+    for _ in range(ctx.n(12, 120)):
+        lim = rng.choice([50, 1000, 4096])
+        members, targets, k = [], ["missing.txt"], 0
+        for i in range(rng.randint(1, 4)):
+            sz = max(0, rng.choice([0, 1, lim - 1, lim, lim + 1, 2 * lim, rng.randint(0, 3 * lim)]))
+            pre = rng.choice(["", "", "d/"])
+            members.append({"name": f"{pre}m{i}.txt", "type": "reg", "size": sz})
+            targets.append(f"{pre}m{i}.txt")
+            for _l in range(rng.choice([0, 1, 1, 2])):
+                typ = rng.choice(["hardlink", "hardlink", "symlink", "symlink", "dir", "special"])
+                tgt = rng.choice(targets)
+                lpre = rng.choice(["", "", "d/"])
+                if typ == "symlink" and lpre == "d/":       # a symlink's target is relative to the link's directory
+                    tgt = tgt[2:] if tgt.startswith("d/") else "../" + tgt
+                members.append({"name": f"{lpre}l{k}.txt", "type": typ, "link": tgt, "size": rng.choice([0, 0, 0, 5, lim + 1])})
+                if typ in ("hardlink", "symlink"):
+                    targets.append(f"{lpre}l{k}.txt")          # chains of links
+                k += 1
+        tcfgs.append((lim, members))
+    tcfgs.append((1000, [{"name": "big.txt", "type": "reg", "size": 1001}, {"name": "h.txt", "type": "hardlink", "link": "big.txt"},
+                         {"name": "s.txt", "type": "symlink", "link": "big.txt"}, {"name": "ok.txt", "type": "reg", "size": 1000},
+                         {"name": "h2.txt", "type": "hardlink", "link": "ok.txt"}, {"name": "s2.txt", "type": "symlink", "link": "ok.txt"}]))
+    tcfgs.append((None, [{"name": "big.txt", "type": "reg", "size": 10 * MB + 1}, {"name": "h.txt", "type": "hardlink", "link": "big.txt"},
+                         {"name": "s.txt", "type": "symlink", "link": "big.txt"}]))
+    reqs, exp = [], []
+    for lim, members in tcfgs:
+        eff = lim if lim is not None else A.ArchiveConfig().max_memory_size
+        data = X.tar_archive(members, gz=rng.random() < 0.7)
+        ref = X.tar_reference(data)
+        got = X.tar_loop(lim, data)
+        reqs.append({"op": "c12.tar_loop", "limit": eff, "members": [{"size": r["size"], "kind": r["kind"], "delivers": r["delivers"]} for r in ref]})
+        exp.append((lim, members, ref, got))
+    outs = ctx.drive(reqs)
+    for (lim, members, ref, got), o in zip(exp, outs):
+        ctx.case(("tar-links", lim, repr(members)))
+        kinds = {r["kind"] for r in ref}
+        ctx.count("members/tar-links/" + ("with-links" if kinds & {"hardlink", "symlink"} else "regular-only"))
+        for r in ref:
+            if r["kind"] in ("hardlink", "symlink"):
+                ctx.count(f"members/tar-links/{r['kind']}-" + ("dangling" if r["delivers"] is None else "resolves"))
+        real = [n for _, n in got["chunks"]]
+        if "drv_error" in o or got["err"] is not None or o["delivered"] != real:
+            broken.append(Broken("correspondence", "c12.tar_loop", f"impl chunks={got['chunks']} err={got['err']} model={o} reference={ref}",
+                                 case={"kind": "tar_links", "limit": lim, "members": members}))
+
     # ---- 7z: which folders are decoded, what is written
     fixed = X.sevenzip_is_fixed()
     ctx.coverage["sevenzip_extractall_members_present"] = fixed
@@ -165,7 +227,7 @@ def _limits_correspondence(ctx):
             cells = []
             for _c in range(rng.randint(0, 4)):
                 rep = rng.choice([1, 1, 1, 2, 3, 0, -1, 100, 101, 150])
-                cells.append((rep, rng.choice([None, None, "x", "ab"])))
+                cells.append((rep, rng.choice([None, None, "x", "ab", X.COVERED])))
             rows.append((rng.choice([1, 1, 2, 3, 0, -2, 100, 101, 120]), cells))
         reqs.append(X.ods_model_request(rows))
         exp.append((rows, X.ods_extract(rows)))
@@ -173,9 +235,44 @@ def _limits_correspondence(ctx):
     for (rows, got), o in zip(exp, outs):
         ctx.case(("ods", repr(rows)), nontrivial=bool(rows))
         ctx.count("ods/" + ("empty" if got["cells"] == 0 else "cells"))
+        if any(t == X.COVERED for _, cs in rows for _, t in cs):
+            ctx.count("ods/with-covered-cells")
         if "drv_error" in o or got["ragged"] or (got["rows"], got["cells"], got["xml_len"]) != (o["rows"], o["cells"], o["xml_len"]) \
                 or (got["rows"] and got["cols"] != o["cols"]):
             broken.append(Broken("correspondence", "c12.ods", f"impl={got} model={o}", case={"ods_rows": rows}))
+
+    # ---- ODF text:s: <text:p> of literal text and text:s elements; the shared walker and the five extractors
+    reqs, exp = [], []
+    for i in range(ctx.n(30, 300)):
+        inl = [("text", rng.choice(["a", "bc", "Z"]))]
+        for _ in range(rng.randint(0, 3)):
+            inl.append(("space", rng.choice(["0", "1", "2", "7", "10", "007", "100", "2000", "31", "00"])))
+            inl.append(("text", rng.choice(["a", "bc", "Z"])))
+        fmt = M.ODF_FORMATS[i % len(M.ODF_FORMATS)] if i % 3 == 0 else None
+        reqs.append(M.text_s_model_request(inl))
+        exp.append((inl, M.element_text_len(inl), M.odf_extract(fmt, inl) if fmt else None, fmt))
+    outs = ctx.drive(reqs)
+    for (inl, (tl, sp), full, fmt), o in zip(exp, outs):
+        ctx.case(("text_s", fmt, repr(inl)))
+        ctx.count("text_s/" + (fmt or "element_text"))
+        if "drv_error" in o or (o["out_len"], o["spaces"]) != (tl, sp) or (full and (full["spaces"], full["para_len"]) != (o["spaces"], o["markup_len"])):
+            broken.append(Broken("correspondence", "c12.text_s", f"impl element_text=(len {tl}, spaces {sp}) extractor={full} model={o}",
+                                 case={"kind": "odf_text", "fmt": fmt or "odt", "inlines": [list(x) for x in inl]}))
+
+    # ---- XLSX: the rectangle spanned by the used cells (dimension = their corner), within 30 x 30
+    reqs, exp = [], []
+    for _ in range(ctx.n(20, 200)):
+        rws = sorted(rng.sample(range(1, 31), rng.randint(1, 4)))
+        cells = [(r, rng.randint(1, 30), rng.choice(["x", "yz"])) for r in rws]
+        reqs.append(M.xlsx_model_request(cells))
+        exp.append((cells, M.xlsx_extract(cells)))
+    outs = ctx.drive(reqs)
+    for (cells, got), o in zip(exp, outs):
+        ctx.case(("xlsx_rect", repr(cells)))
+        ctx.count("xlsx/used-cells-" + str(len(cells)))
+        if "drv_error" in o or (o["cells"], o["sheet_len"]) != (got["all_rows_cells"], got["sheet_len"]):
+            broken.append(Broken("correspondence", "c12.xlsx_rect", f"impl={got} model={o}",
+                                 case={"kind": "xlsx_cells", "cells": [list(c) for c in cells]}))
     return broken
 
 
@@ -334,6 +431,58 @@ def _oracle_limits(ctx):
     return out
 
 
+def _tar_link_archive(eff):
+    """an in-limit and an oversize regular member, each with a hard link and a symlink to it (root and sub-directory),
+    a dangling link, a directory — sizes follow the limit in force, nothing else"""
+    return [{"name": "ok.txt", "type": "reg", "size": eff - 1},
+            {"name": "data/huge_export.txt", "type": "reg", "size": eff + 1},
+            {"name": "data/readme.txt", "type": "hardlink", "link": "data/huge_export.txt"},
+            {"name": "data/notes.txt", "type": "symlink", "link": "huge_export.txt"},
+            {"name": "top.txt", "type": "symlink", "link": "data/huge_export.txt"},
+            {"name": "ok_copy.txt", "type": "hardlink", "link": "ok.txt"},
+            {"name": "ok_alias.txt", "type": "symlink", "link": "ok.txt"},
+            {"name": "gone.txt", "type": "symlink", "link": "nowhere.txt"},
+            {"name": "sub", "type": "dir"}]
+
+
+def _tar_link_violations(lim, members):
+    """the statement on a TAR archive with link entries: nothing above the per-member limit is read into memory,
+    the in-limit regular members are processed, and the bytes read in total do not exceed the archive's payload"""
+    from sharepoint2text.parsing.extractors import archive_extractor as A
+    eff = lim if lim is not None else A.ArchiveConfig().max_memory_size
+    payload = sum(m["size"] for m in members if m["type"] == "reg")
+    if payload > 40 * MB:
+        return [Violation("harness.unsafe-input", f"refusing a {payload}-byte TAR payload", {}, found_input=False)]
+    data = X.tar_archive(members)
+    got = X.tar_loop(lim, data)
+    rep = {"kind": "tar_links", "limit": lim, "members": members}
+    out = []
+    types = {m["name"]: m["type"] for m in members}
+    over = [(nm, n) for nm, n in got["chunks"] if n > eff or n < 0]
+    if over:
+        nm, n = over[0]
+        via = types.get(nm, "?")
+        key = "limit.member.tar" if via == "reg" else "limit.member.tar-link"
+        out.append(Violation(key, f"tar ({len(data)} bytes) with per-member limit {eff}: the loop read {n} bytes into memory through the "
+                             f"{via} entry {nm!r}" + (f" -> {[m.get('link') for m in members if m['name'] == nm][0]!r}" if via != "reg" else "")
+                             + f" (all reads: {got['chunks']}); the statement says members above the limit are skipped without being decompressed", rep))
+    read_names = {nm for nm, _ in got["chunks"]}
+    for m in members:
+        if m["type"] == "reg" and m["size"] <= eff and m["name"] not in read_names and got["err"] is None:
+            out.append(Violation("limit.member.tar", f"tar member {m['name']!r} of {m['size']} bytes (limit {eff}) was skipped, the statement says processed", rep))
+            break
+    total = sum(n for _, n in got["chunks"] if n > 0)
+    once = sum(m["size"] for m in members if m["type"] == "reg" and m["size"] <= eff)     # every in-limit member read once
+    if total > once and not over:
+        links = [nm for nm, _ in got["chunks"] if types.get(nm) != "reg"]
+        out.append(Violation("limit.member.tar-link-multiplied", f"tar whose in-limit regular members hold {once} bytes: the loop read {total} bytes "
+                             f"({got['chunks']}): a member is read again through every link entry {links} (512 bytes of header each), so the bytes "
+                             "read follow the number of links, not the size of the archive", rep))
+    if got["err"] is not None:
+        out.append(Violation("limit.member.tar", f"tar extraction failed: {got['err']}", rep))
+    return out
+
+
 def _oracle_members(ctx, only_7z=False):
     out = []
 
@@ -352,6 +501,9 @@ def _oracle_members(ctx, only_7z=False):
                     add(f"limit.member.{kind}", f"{kind} member of {s} bytes with per-member limit {eff}: "
                         + ("decompressed" if read else "skipped") + ", the statement says " + ("skipped" if s > eff else "processed"),
                         {"kind": "member", "archive": kind, "limit": lim, "sizes": sizes})
+        if not only_7z:
+            for v in _tar_link_violations(lim, _tar_link_archive(eff)):
+                add(v.key, v.what, v.replay)
         layouts = [[[("a.txt", eff - 1)], [("b.txt", eff)], [("c.txt", eff + 1)]]] if lim is not None else \
             [[[("a.txt", eff - 1)]], [[("b.txt", eff)]], [[("c.txt", eff + 1)]]]
         for folders in layouts:
@@ -400,17 +552,21 @@ def _oracle_amplification(ctx):
     # ODS: repeat attributes on a non-empty cell
     rows = [(300, [(5000, "x")])]
     got = X.ods_extract(rows)
+    ctx.coverage["witness_ods_300x5000"] = got
     if got["cells"] > AMP_K * got["xml_len"]:
         out.append(Violation("ods.repeat-nonempty-amplification",
                              f"ODS (cols-repeated=5000 and rows-repeated=300 on a non-empty cell): content.xml of {got['xml_len']} bytes "
                              f"({got['file_len']}-byte file) yields {got['cells']} cells (> {AMP_K}·size)", {"kind": "ods", "rows": rows}))
-    # ODS: the documented cap on EMPTY repeats (one cell / one row)
-    rows = [(100000, [(1, None)]), (1, [(100000, None), (1, "x")])]
+    # ODS: the documented cap on EMPTY repeats (one cell / one row).  SAFETY: 900 / 900 — with both caps gone this is
+    # 901 x 901 = 8.1e5 cells (the former 100000 / 100000 would have been 1e10); a cap lost on one side only is the
+    # business of the repeat-independence oracle below
+    rows = [(900, [(1, None)]), (1, [(900, None), (1, "x")])]
     got = X.ods_extract(rows)
     if got["cells"] > AMP_K * got["xml_len"]:
         out.append(Violation("ods.empty-repeat-uncapped",
-                             f"ODS (100000 repeated EMPTY rows, then 100000 repeated empty cells before one value): content.xml of "
+                             f"ODS (900 repeated EMPTY rows, then 900 repeated empty cells before one value): content.xml of "
                              f"{got['xml_len']} bytes yields {got['cells']} cells (> {AMP_K}·size)", {"kind": "ods", "rows": rows}))
+    out += _oracle_repeat_independence(ctx)
     # ODS: rectangular padding — cells per input byte must not grow with the input
     def stair(n):
         return [(1, [(1, "x")] * n)] + [(1, [(1, "x")])] * n
@@ -420,6 +576,107 @@ def _oracle_amplification(ctx):
                              f"ODS without any repeat attribute: {g1['xml_len']} bytes -> {g1['cells']} cells, {g2['xml_len']} bytes -> {g2['cells']} cells "
                              "(cells per byte doubles when the input doubles: rows are padded to the widest row)",
                              {"kind": "ods_stair", "n": 300}))
+    return out
+
+
+# ---- "irrespective of repeat counts": every kind of EMPTY run the ODS format has.  Worst case of every sheet below
+#      under a library without any cap: 3 x 2002 cells.
+_INDEP_SHAPES = {
+    "empty-cells-before-a-value": lambda n: [(1, [(n, None), (1, "x")])],
+    "empty-rows-before-a-row-with-data": lambda n: [(n, [(1, None)]), (1, [(1, "x")])],
+    "covered-cells-before-a-value": lambda n: [(1, [(1, "merged title"), (n, X.COVERED), (1, "end")])] * 3,
+    "covered-cells-between-empty-cells": lambda n: [(1, [(1, None), (n, X.COVERED), (1, None), (1, "x")])],
+}
+INDEP_LO, INDEP_HI = 200, 2000
+
+
+def _ods_worst_case_cells(rows):
+    """cells of the sheet if every repeat attribute (empty, covered or not) were expanded in full"""
+    return sum(max(1, rr) for rr, _ in rows) * max([sum(max(1, cr) for cr, _ in cells) for _, cells in rows] + [1])
+
+
+def _repeat_independence(sheet_lo, sheet_hi):
+    """the two sheets differ in the repeat count of one empty run only; -> (same cells?, message)"""
+    if max(_ods_worst_case_cells(sheet_lo), _ods_worst_case_cells(sheet_hi)) > 10 ** 6:
+        return None, "refused: worst-case expansion above 10^6 cells"
+    a, b = X.ods_extract(sheet_lo), X.ods_extract(sheet_hi)
+    same = (a["rows"], a["cols"], a["cells"]) == (b["rows"], b["cols"], b["cells"])
+    return same, (f"-> {a['rows']}x{a['cols']} = {a['cells']} cells ({a['xml_len']} bytes) at the lower repeat count, "
+                  f"{b['rows']}x{b['cols']} = {b['cells']} cells ({b['xml_len']} bytes) at the higher one")
+
+
+def _oracle_repeat_independence(ctx):
+    out = []
+    for shape, mk in _INDEP_SHAPES.items():
+        lo, hi = mk(INDEP_LO), mk(INDEP_HI)
+        same, msg = _repeat_independence(lo, hi)
+        msg = f"ODS {shape}, repeat {INDEP_LO} vs {INDEP_HI} " + msg
+        ctx.coverage.setdefault("ods_repeat_independence", {})[shape] = msg
+        if same is False:
+            out.append(Violation("ods.empty-run-repeat-dependent." + shape, msg + ": the cells materialised for an EMPTY run follow the "
+                                 "declared repeat count (the statement says: irrespective of repeat counts)",
+                                 {"kind": "ods_repeat_indep", "shape": shape, "sheet_lo": lo, "sheet_hi": hi}))
+    return out
+
+
+# ---- ODF text: characters per input byte for every empty text:* element that may carry a count
+TEXT_S_LO, TEXT_S_HI = "2000", "20000"
+
+
+def _odf_text_ratio(fmt, inlines_of):
+    lo, hi = M.odf_extract(fmt, inlines_of(TEXT_S_LO)), M.odf_extract(fmt, inlines_of(TEXT_S_HI))
+    amplifies = hi["text_len"] > AMP_K * hi["input_len"] and hi["text_len"] - lo["text_len"] >= (int(TEXT_S_HI) - int(TEXT_S_LO)) // 2
+    return amplifies, lo, hi
+
+
+def _oracle_odf_text(ctx):
+    """text:s text:c=N is the recorded finding; the same count on any other element (or any other growth) is new"""
+    out, seen = [], set()
+    for fmt in M.ODF_FORMATS:
+        for el in ("s", "tab", "line-break", "span", "soft-page-break"):
+            inl = (lambda n: [("text", "a"), ("space", n), ("text", "b")]) if el == "s" else \
+                (lambda n, el=el: [("text", "a"), ("el", el, n), ("text", "b")])
+            amp, lo, hi = _odf_text_ratio(fmt, inl)
+            if el == "s":
+                ctx.coverage.setdefault("witness_text_s", {})[fmt] = {"lo": lo, "hi": hi}
+            key = "odf.text-s-count-amplification" if el == "s" else f"odf.text-{el}-count-amplification"
+            if amp and key not in seen:
+                seen.add(key)
+                out.append(Violation(key, f"{fmt.upper()} <text:p>a<text:{el} text:c=\"N\"/>b</text:p>: N={TEXT_S_LO} -> {lo['text_len']} characters "
+                                     f"from {lo['input_len']} input bytes, N={TEXT_S_HI} -> {hi['text_len']} characters from {hi['input_len']} bytes "
+                                     f"(> {AMP_K}·size; the output follows the declared count, the input only its digits)",
+                                     {"kind": "odf_text", "fmt": fmt, "inlines": [["text", "a"]] + ([["space", TEXT_S_HI]] if el == "s" else [["el", el, TEXT_S_HI]]) + [["text", "b"]]}))
+    return out
+
+
+# ---- XLSX: cells / characters per input byte
+XLSX_STEPS = ((100, 100), (200, 200), (400, 400))
+
+
+def _oracle_xlsx(ctx):
+    out = []
+    gs = [M.xlsx_extract([(1, 1, "x"), (r, c, "y")]) for r, c in XLSX_STEPS]
+    ctx.coverage["witness_xlsx_sparse"] = {f"{r}x{c}": g for (r, c), g in zip(XLSX_STEPS, gs)}
+    last = gs[-1]
+    if max(last["data_cells"], last["all_rows_cells"]) > AMP_K * last["input_len"] or last["text_len"] > AMP_K * AMP_K * last["input_len"]:
+        out.append(Violation("xlsx.sparse-far-cell-amplification",
+                             "XLSX with two used cells A1 and (r, c): " + "; ".join(
+                                 f"({r},{c}) -> {g['data_cells']} cells, {g['text_len']} characters from {g['input_len']} bytes ({g['file_len']}-byte file)"
+                                 for (r, c), g in zip(XLSX_STEPS, gs)) + f" (> {AMP_K}·size, x4 per step at constant size: the rectangle spanned by "
+                             "the used cells is materialised)", {"kind": "xlsx_cells", "cells": [[1, 1, "x"], [400, 400, "y"]]}))
+    # controls: a declared dimension without a far cell, and a dense sheet, must not amplify
+    g = M.xlsx_extract([(1, 1, "x"), (2, 2, "y")], dim=(400, 400))
+    ctx.coverage["control_xlsx_dimension_only"] = g
+    if max(g["data_cells"], g["all_rows_cells"]) > AMP_K * g["input_len"] or g["text_len"] > AMP_K * AMP_K * g["input_len"]:
+        out.append(Violation("xlsx.declared-dimension-amplification",
+                             f"XLSX with used cells A1, B2 and <dimension ref=\"A1:{M.col_name(400)}400\"/>: {g['data_cells']} cells "
+                             f"({g['all_rows_cells']} in all_rows), {g['text_len']} characters from {g['input_len']} bytes: the output follows the declared dimension",
+                             {"kind": "xlsx_cells", "cells": [[1, 1, "x"], [2, 2, "y"]], "dim": [400, 400]}))
+    dense = [(r, 1, "x") for r in range(1, 41)]
+    g = M.xlsx_extract(dense)
+    if max(g["data_cells"], g["all_rows_cells"]) > AMP_K * g["input_len"]:
+        out.append(Violation("xlsx.dense-amplification", f"XLSX with 40 used cells A1..A40: {g['data_cells']} cells from {g['input_len']} bytes",
+                             {"kind": "xlsx_cells", "cells": [list(c) for c in dense]}))
     return out
 
 
@@ -437,7 +694,7 @@ def search(ctx, broken):
                     extra.append((nm, bytes.fromhex(inp)))
                 except ValueError:
                     pass
-    vs = _oracle_limits(ctx) + _oracle_amplification(ctx) + _oracle_loops(ctx, extra)
+    vs = _oracle_limits(ctx) + _oracle_amplification(ctx) + _oracle_odf_text(ctx) + _oracle_xlsx(ctx) + _oracle_loops(ctx, extra)
     # open known findings are reported by known_witnesses(); returning them here would hide a broken obligation
     # for which no NEW failing input exists (run.py then says `no-failing-input-found`)
     from run import load_known
@@ -511,6 +768,26 @@ def replay(ctx, payload):
         g1, g2 = X.ods_extract(mk(n // 2)), X.ods_extract(mk(n))
         return g2["cells"] * g1["xml_len"] <= 1.8 * g1["cells"] * g2["xml_len"], \
             f"{g1['xml_len']} bytes -> {g1['cells']} cells; {g2['xml_len']} bytes -> {g2['cells']} cells"
+    if kind == "tar_links":
+        vs = _tar_link_violations(rep["limit"], rep["members"])
+        got = X.tar_loop(rep["limit"], X.tar_archive(rep["members"]))
+        return not vs, (vs[0].what if vs else f"every read within the limit and the payload: {got['chunks']}")
+    if kind == "ods_repeat_indep":
+        sheets = [[(rr, [(cr, t) for cr, t in cells]) for rr, cells in rep[k]] for k in ("sheet_lo", "sheet_hi")]
+        same, msg = _repeat_independence(*sheets)
+        return bool(same), f"ODS {rep.get('shape', '')} " + msg
+    if kind == "odf_text":
+        inl = [tuple(x) for x in rep["inlines"]]
+        declared = max([int(x[-1]) for x in inl if x[0] != "text"] + [0])
+        if declared > M.MAX_SPACES:
+            return False, f"refused: count {declared} above the harness's bound"
+        got = M.odf_extract(rep["fmt"], inl)
+        return got["text_len"] <= AMP_K * got["input_len"], f"{rep['fmt']}: {got['text_len']} characters from {got['input_len']} input bytes (declared count {declared})"
+    if kind == "xlsx_cells":
+        cells = [tuple(c) for c in rep["cells"]]
+        got = M.xlsx_extract(cells, dim=tuple(rep["dim"]) if rep.get("dim") else None)
+        ok = max(got["data_cells"], got["all_rows_cells"]) <= AMP_K * got["input_len"] and got["text_len"] <= AMP_K * AMP_K * got["input_len"]
+        return ok, f"XLSX with {len(cells)} used cells: {got['data_cells']} cells, {got['text_len']} characters from {got['input_len']} bytes"
     if kind == "ods":
         rows = [(rr, [(cr, t) for cr, t in cells]) for rr, cells in rep["rows"]]
         got = X.ods_extract(rows)
@@ -544,8 +821,22 @@ def known_witnesses(ctx):
         ctx.notes.append(f"known finding ppt.slide-list-rewalk-superlinear: witness no longer behaves as recorded: {res}")
     for v in _oracle_amplification(ctx):
         vs.append(v)
-    got = X.ods_extract([(300, [(5000, "x")])])
-    ctx.coverage["witness_ods_300x5000"] = got
+    # text:s and the XLSX far cell: the bounded witnesses of S2T.C12.Amplify.textS_witness / xlsx_sparse_witness, with
+    # the numbers the models predict; the controls (other elements carrying a count, a declared dimension without a
+    # far cell, a dense sheet) are part of the same oracles and are NOT known findings
+    found = _oracle_odf_text(ctx) + _oracle_xlsx(ctx)
+    w = ctx.coverage.get("witness_text_s", {})
+    if not all(w.get(f, {}).get("hi", {}).get("spaces") == int(TEXT_S_HI) and w[f]["hi"]["para_len"] == 43 for f in M.ODF_FORMATS):
+        ctx.notes.append(f"known finding odf.text-s-count-amplification: witness no longer behaves as recorded (20000 spaces from a 43-byte paragraph in all five formats): {w}")
+    x = ctx.coverage.get("witness_xlsx_sparse", {})
+    if [x.get(f"{r}x{c}", {}).get("all_rows_cells") for r, c in XLSX_STEPS] != [r * c for r, c in XLSX_STEPS] or x.get("400x400", {}).get("sheet_len") != 268:
+        ctx.notes.append(f"known finding xlsx.sparse-far-cell-amplification: witness no longer behaves as recorded (r*c cells, 268-byte worksheet part): {x}")
+    if ctx.thorough:
+        g = M.xlsx_extract([(1, 1, "x"), (1000, 702, "y")])      # ZZ1000: 702 000 cells, the largest input of the whole check
+        ctx.coverage["witness_xlsx_ZZ1000"] = g
+        if g["all_rows_cells"] != 702000:
+            ctx.notes.append(f"xlsx ZZ1000 witness: {g}")
+    vs += found
     # 7z: both the repaired defect (must stay repaired) and the open solid-folder finding
     for v in _oracle_members(ctx, only_7z=True):
         vs.append(v)
